@@ -22,7 +22,7 @@ import (
 
 func init() {
 	register(&Rule{ID: "CRASH.bounded", Floor: 40,
-		Doc: "all abstract-run families are executed and every exported entry point they call is an obligation: no panic escapes from it and a (result, error) pair is never (nil, nil) nor (value, error) - over all token strings, character strings, templates, tables, scripts, symbol sets, registrations, operator / conversion / function cells of the families",
+		Doc: "all abstract-run families are executed and every exported entry point they call is an obligation: no panic escapes from it and a (result, error) pair is never (nil, nil) nor (value, error) - over all token strings, character strings, templates, tables, scripts, symbol sets, registrations, operator / conversion / function cells of the families; every operator and default function through the calculator with the real operations (default and type-safe) on boundary values of every variant type, where an evaluation that uses up the whole step budget is a termination violation",
 		Run: func(c *Ctx) []*Obligation {
 			o := newObl("CRASH.bounded")
 			// run every family (memoised); CRASHONLY=1 (debug aid) runs the calculator family of this file alone
